@@ -14,6 +14,7 @@
    harness (props/C06 for the batch encoder, props/C17/check.py for the flow state machine). *)
 From Coq Require Import List NArith Bool.
 From Wbxml Require Import Model.Codec Model.EncWbxml Model.Flow Model.FlowEnc Proofs.FlowProofs Proofs.FlowEncProofs.
+From Wbxml Require Model.EncXml Model.FlowEncXml Proofs.FlowEncXmlProofs.
 Import ListNotations.
 
 (* --- the repaired code: the full theorem, for every per-node encoder and every history ------------------ *)
@@ -146,4 +147,53 @@ Example C17_ex_encwbxml_d16 :
   w_get_output (w_run_fixed [] e0 ops) = [3; 1; 106; 0; 5; 0; 1; 7]%N /\
   enc_wbxml [] l0 (mk_opts 3 false true false) [NElt (TagTok 0 5 0 []) [] []; NElt (TagTok 1 7 0 []) [] []]%N
     = EOk [3; 1; 106; 0; 5; 0; 1; 7]%N.
+Proof. vm_compute. auto. Qed.
+
+(* --- the real XML encoder (Model/EncXml.v) as the per-node encoder --------------------------------------- *)
+
+(* EncXml's state is (indent, in_content, in_cdata, current tag).  BALANCE: a node that is encoded successfully and
+   entered with in_cdata = FALSE ends with in_cdata = FALSE — a CDATA section is one node, opened and closed inside
+   one parse_single_node.  So in_cdata is FALSE between top-level nodes and delete_last_node need not restore it;
+   the flow context is (indent, in_content, current tag), exactly what the repaired delete_last_node restores *)
+Theorem C17_encxml_node_cdata_balance : forall o n l parent s b s',
+  EncXml.enc_node l o parent s n = EncXml.XOk (b, s') -> EncXml.e_in_cdata s = false -> EncXml.e_in_cdata s' = false.
+Proof. exact FlowEncXmlProofs.enc_node_keeps_outside. Qed.
+Print Assumptions C17_encxml_node_cdata_balance.
+
+(* every history, raw element starts and ends included *)
+Theorem C17_flow_equals_batch_encxml_fragments : forall l o ops,
+  FlowEncXml.x_get_output (FlowEncXml.x_run_fixed l o ops) = FlowEncXml.x_spec_output l o ops.
+Proof.
+  exact (fun l o => fixed_output FlowEncXml.xctx EncXml.node FlowEncXml.xctx0 (FlowEncXml.x_enc_node l o)
+                                 (FlowEncXml.x_enc_start l o) (FlowEncXml.x_enc_end o) (FlowEncXml.x_header l o)).
+Qed.
+Print Assumptions C17_flow_equals_batch_encxml_fragments.
+
+(* histories whose remaining fragments are whole nodes: header ++ EncXml's batch body of those nodes *)
+Theorem C17_flow_equals_batch_encxml : forall l o ops ns b s',
+  FlowEncXml.x_live ops = map (@FNode EncXml.node) ns ->
+  EncXml.enc_nodes l o EncXml.proot ns (EncXml.est0 0) = EncXml.XOk (b, s') ->
+  FlowEncXml.x_get_output (FlowEncXml.x_run_fixed l o ops) =
+  (if seen EncXml.node (srun EncXml.node ops) then EncXml.xml_header l o else []) ++ b.
+Proof. exact FlowEncXmlProofs.flow_equals_batch_encxml. Qed.
+Print Assumptions C17_flow_equals_batch_encxml.
+
+(* ... which is the document wbxml_tree_to_xml produces for those nodes *)
+Theorem C17_flow_equals_wbxml_tree_to_xml : forall l o ops ns doc,
+  FlowEncXml.x_live ops = map (@FNode EncXml.node) ns -> ns <> [] ->
+  EncXml.enc_xml_opts l o ns = EncXml.XOk doc ->
+  FlowEncXml.x_get_output (FlowEncXml.x_run_fixed l o ops) = doc.
+Proof. exact FlowEncXmlProofs.flow_equals_enc_xml. Qed.
+Print Assumptions C17_flow_equals_wbxml_tree_to_xml.
+
+(* non-vacuity (indented XML): raw <a> (indent 1), <c/>, raw </a> (indent 0), delete back to before <c/>, <d/>.
+   Unrepaired: <d/> is not indented; repaired: it is, as in the batch encoding of <a> <d/> *)
+Example C17_ex_encxml_d16 :
+  let l0 := EncXml.mk_xlang 0 [] None [] None false [] [] in
+  let o0 := EncXml.mk_opts EncXml.Indent 1 false false in
+  let a := EncXml.Elt (EncXml.TLit [97]%N) [] [EncXml.Elt (EncXml.TLit [98]%N) [] []] in
+  let ops := [EltStart a true; Node (EncXml.Elt (EncXml.TLit [99]%N) [] []); EltEnd a true; DeleteLast;
+              Node (EncXml.Elt (EncXml.TLit [100]%N) [] []); GetOutput] in
+  out _ (FlowEncXml.x_run l0 o0 ops) = [60; 97; 62; 10; 60; 100; 47; 62; 10]%N /\
+  out _ (FlowEncXml.x_run_fixed l0 o0 ops) = [60; 97; 62; 10; 32; 60; 100; 47; 62; 10]%N.
 Proof. vm_compute. auto. Qed.
